@@ -234,9 +234,10 @@ where
             let mut last_end = 0;
             let mut chrom_offset = 0;
             for sk in &split_kmer_pos {
-                if sk.chrom > last_chrom {
+                // Contigs without any split k-mer still take up space in the output
+                while sk.chrom > last_chrom {
                     chrom_offset += seq[last_chrom].len();
-                    last_chrom = sk.chrom;
+                    last_chrom += 1;
                 }
                 if repeats.contains(&sk.kmer) {
                     let start = sk.pos - half_split_len + chrom_offset;
